@@ -27,7 +27,7 @@ inductive Instr where
   | getSet (k : Nat) (g : Getter)   -- `with cacher.get_set(k, getter) as v:`  (opens a with-block)
   | exit                            -- leave the innermost with-block normally
   | raise                           -- the with-body raises
-  | rmv (k : Nat)                   -- `cacher.rmv(k)`
+  | rmv (k : Nat) (f : Bool)        -- `cacher.rmv(k)`; `f`: the inner cacher's rmv raises if it gets called
   deriving DecidableEq, Repr
 
 inductive Pc where
@@ -46,10 +46,11 @@ inductive Pc where
   | gsHRelR (k : Nat)               -- exception handler of get_set: `_release_read_lock`
   | gsHRelW (k : Nat)               -- exception handler of get_set: `_release_write_lock`
   | exRel                           -- next: `_release_read_lock` of `_release_read_on_exit` (normal exit)
-  | rmChk (k : Nat)                 -- next: `key in self` of rmv (no lock held)
-  | rmAcqW (k : Nat)                -- next: lock block of `_acquire_write_lock` in rmv
-  | rmRemove (k : Nat)              -- next: `self._cache.rmv(key)`
+  | rmChk (k : Nat) (f : Bool)      -- next: `key in self` of rmv (no lock held)
+  | rmAcqW (k : Nat) (f : Bool)     -- next: lock block of `_acquire_write_lock` in rmv
+  | rmRemove (k : Nat) (f : Bool)   -- next: `self._cache.rmv(key)` (raises when `f`)
   | rmRelW (k : Nat)                -- next: `_release_write_lock` in rmv
+  | rmHRelW (k : Nat)               -- `except:` of rmv with lock == 'write': `_release_write_lock`, then re-raise
   | unwind                          -- an exception propagates: release the innermost with-block
   deriving DecidableEq, Repr
 
@@ -62,6 +63,7 @@ inductive Ev where
   | cget (k : Nat) (v : Nat)
   | cpop (k : Nat) (v : Nat) | cpopFail (k : Nat)
   | crmv (k : Nat) (b : Bool)
+  | crmvFail (k : Nat)                -- the inner cacher's rmv raised (entry untouched)
   | enter (k : Nat) (v : Nat)
   | raiseBody
   deriving DecidableEq, Repr
@@ -105,7 +107,7 @@ def stepC (idx : Nat → Nat) (arr : Nat → Int) (cache : Nat → Option Nat) (
       if c.stack.isEmpty then some (.skip, arr, cache, { c with cur := r })
       else some (.begin, arr, cache, { c with cur := r, pc := .exRel })
     | .raise :: _ => some (.raiseBody, arr, cache, toUnwind c)
-    | .rmv k :: r => some (.begin, arr, cache, { c with cur := r, pc := .rmChk k })
+    | .rmv k f :: r => some (.begin, arr, cache, { c with cur := r, pc := .rmChk k f })
     | [] =>
       if !c.stack.isEmpty then some (.begin, arr, cache, { c with pc := .exRel })
       else match c.rest with
@@ -161,20 +163,23 @@ def stepC (idx : Nat → Nat) (arr : Nat → Int) (cache : Nat → Option Nat) (
       some (.relR k, upd arr (idx k) (arr (idx k) - 1), cache,
             { c with book := upd c.book k (c.book k - 1), stack := t, pc := .idle })
     | [] => none
-  | .rmChk k =>
+  | .rmChk k f =>
     match cache k with
     | some _ =>
       if c.book k ≠ 0 then some (.contains k true, arr, cache, toUnwind c)   -- CobaException "unrecoverable state"
-      else some (.contains k true, arr, cache, { c with pc := .rmAcqW k })
+      else some (.contains k true, arr, cache, { c with pc := .rmAcqW k f })
     | none => some (.contains k false, arr, cache, { c with pc := .idle })
-  | .rmAcqW k =>
+  | .rmAcqW k f =>
     if arr (idx k) = 0 then
-      some (.acqW k, upd arr (idx k) (-1), cache, { c with book := upd c.book k (-1), pc := .rmRemove k })
+      some (.acqW k, upd arr (idx k) (-1), cache, { c with book := upd c.book k (-1), pc := .rmRemove k f })
     else some (.spin, arr, cache, c)
-  | .rmRemove k =>
-    some (.crmv k (cache k).isSome, arr, upd cache k none, { c with pc := .rmRelW k })
+  | .rmRemove k f =>
+    if f then some (.crmvFail k, arr, cache, { c with pc := .rmHRelW k })
+    else some (.crmv k (cache k).isSome, arr, upd cache k none, { c with pc := .rmRelW k })
   | .rmRelW k =>
     some (.relW k, upd arr (idx k) 0, cache, { c with book := upd c.book k 0, pc := .idle })
+  | .rmHRelW k =>
+    some (.relW k, upd arr (idx k) 0, cache, toUnwind { c with book := upd c.book k 0 })
   | .unwind =>
     match c.stack with
     | k :: t =>
@@ -223,7 +228,7 @@ def segOk (ok : List Nat → Nat → Bool) : List Nat → List Instr → Bool
   | st, .getSet k _ :: r => ok st k && segOk ok (k :: st) r
   | st, .exit :: r => segOk ok st.tail r
   | _, .raise :: _ => true
-  | st, .rmv k :: r => ok st k && segOk ok st r
+  | st, .rmv k _ :: r => ok st k && segOk ok st r
 
 /-- the property's exclusion: a caller never operates on a key that collides with a *different*
 key it is currently reading -/
@@ -250,7 +255,7 @@ def Pc.readKey : Pc → Option Nat
 /-- key on which the current phase holds the write lock -/
 def Pc.writeKey : Pc → Option Nat
   | .gsChk2 k _ => some k | .gsSwA k => some k | .gsPop k _ => some k | .gsSwB k _ => some k
-  | .gsHRelW k => some k | .rmRemove k => some k | .rmRelW k => some k
+  | .gsHRelW k => some k | .rmRemove k _ => some k | .rmRelW k => some k | .rmHRelW k => some k
   | _ => none
 
 /-- all keys on which the caller holds a read lock (operation in flight + entered with-blocks) -/
@@ -278,7 +283,7 @@ def pcOK (cache : Nat → Option Nat) (c : Caller) : Prop :=
   | .gsGet1 k => (cache k).isSome
   | .gsRelR k _ => cache k = none
   | .gsAcqW k _ => k ∉ c.stack
-  | .rmAcqW k => k ∉ c.stack
+  | .rmAcqW k _ => k ∉ c.stack
   | .gsSwA k => (cache k).isSome
   | .gsGet2 k => (cache k).isSome
   | .gsPop k _ => cache k = none
@@ -312,7 +317,7 @@ def Pc.rank : Pc → Nat
   | .idle => 2 | .gsAcqR _ _ => 13 | .gsChk1 _ _ => 12 | .gsGet1 _ => 7 | .gsRelR _ _ => 11
   | .gsAcqW _ _ => 10 | .gsChk2 _ _ => 9 | .gsSwA _ => 8 | .gsGet2 _ => 7 | .gsPop _ _ => 8
   | .gsSwB _ _ => 7 | .gsEnter _ _ => 6 | .gsHRelR _ => 4 | .gsHRelW _ => 3 | .exRel => 1
-  | .rmChk _ => 6 | .rmAcqW _ => 5 | .rmRemove _ => 4 | .rmRelW _ => 3 | .unwind => 2
+  | .rmChk _ _ => 6 | .rmAcqW _ _ => 5 | .rmRemove _ _ => 4 | .rmRelW _ => 3 | .rmHRelW _ => 3 | .unwind => 2
 
 def restWeight : List (List Instr) → Nat
   | [] => 0
@@ -339,12 +344,13 @@ def hierC (idx : Nat → Nat) (c : Caller) : Prop :=
   | .gsSwB k _ => segOk (hierOk idx) (k :: c.stack) c.cur = true
   | .gsEnter k _ => segOk (hierOk idx) (k :: c.stack) c.cur = true
   | .exRel => segOk (hierOk idx) c.stack.tail c.cur = true
-  | .rmChk k => hierOk idx c.stack k = true ∧ segOk (hierOk idx) c.stack c.cur = true
-  | .rmAcqW k => hierOk idx c.stack k = true ∧ segOk (hierOk idx) c.stack c.cur = true
-  | .rmRemove _ => segOk (hierOk idx) c.stack c.cur = true
+  | .rmChk k _ => hierOk idx c.stack k = true ∧ segOk (hierOk idx) c.stack c.cur = true
+  | .rmAcqW k _ => hierOk idx c.stack k = true ∧ segOk (hierOk idx) c.stack c.cur = true
+  | .rmRemove _ _ => segOk (hierOk idx) c.stack c.cur = true
   | .rmRelW _ => segOk (hierOk idx) c.stack c.cur = true
   | .gsHRelR _ => True
   | .gsHRelW _ => True
+  | .rmHRelW _ => True
   | .unwind => True
 
 
